@@ -580,6 +580,45 @@ func handlerClosesBody(c *core.Ctx) {
 	c.Floor("handler conn Close implementations", n, 3)
 }
 
+// eofShortcut: the comparison is (part of a disjunction that is) the condition of an if whose body is
+// one return statement handing back the compared variable itself as the error.
+func eofShortcut(info *types.Info, fd *ast.FuncDecl, cmp *ast.BinaryExpr) bool {
+	v := astx.ObjOf(info, astx.Unparen(cmp.X))
+	if astx.IsPkgVar(info, cmp.X, "io", "EOF") {
+		v = astx.ObjOf(info, astx.Unparen(cmp.Y))
+	}
+	if v == nil {
+		return false
+	}
+	ok := false
+	ast.Inspect(fd.Body, func(x ast.Node) bool {
+		ifs, isIf := x.(*ast.IfStmt)
+		if !isIf || !astx.Contains(ifs.Cond, cmp) || ifs.Else != nil || len(ifs.Body.List) != 1 {
+			return true
+		}
+		// only disjunctions above the comparison
+		onlyOr := true
+		ast.Inspect(ifs.Cond, func(y ast.Node) bool {
+			if be, isBin := y.(*ast.BinaryExpr); isBin && astx.Contains(be, cmp) && be != cmp && be.Op != token.LOR {
+				onlyOr = false
+			}
+			if u, isU := y.(*ast.UnaryExpr); isU && u.Op == token.NOT && astx.Contains(u, cmp) {
+				onlyOr = false
+			}
+			return true
+		})
+		ret, isRet := ifs.Body.List[0].(*ast.ReturnStmt)
+		if !onlyOr || !isRet || len(ret.Results) == 0 {
+			return true
+		}
+		if astx.ObjOf(info, astx.Unparen(ret.Results[len(ret.Results)-1])) == v {
+			ok = true
+		}
+		return true
+	})
+	return ok
+}
+
 func eofCompareIs(c *core.Ctx) {
 	p := c.P
 	info := p.Connect.TypesInfo
@@ -589,6 +628,11 @@ func eofCompareIs(c *core.Ctx) {
 			switch y := x.(type) {
 			case *ast.BinaryExpr:
 				if (y.Op == token.EQL || y.Op == token.NEQ) && (astx.IsPkgVar(info, y.X, "io", "EOF") || astx.IsPkgVar(info, y.Y, "io", "EOF")) {
+					// an identity test that only short-cuts: `if err == nil || err == io.EOF { return n, err }` hands
+					// the very value back and leaves every other error (wrapped EOFs included) to the general path
+					if y.Op == token.EQL && eofShortcut(info, fd, y) {
+						return true
+					}
 					n++
 					c.Violation(fmt.Sprintf("compare/%s#%d", core.FuncName(fd), n), y.Pos(), "%s compares with io.EOF using %s: the library's errors wrap io.EOF, only errors.Is recognises them", core.FuncName(fd), y.Op)
 				}
